@@ -409,6 +409,33 @@ def check_into_parent(rep, name, m, r, ty, stats):
         rep.add("C06|rust|into-parent|field-set", f"{ty} -> {parent}: initialises {sorted(have)}, parent has {sorted(want_fields)}", where)
 
 
+def check_constant_accessors(rep, name, m, r, ty, stats):
+    """(c') a derived type reads its constrained fields through generated accessors `fn f(&self) -> T { value }` (its
+    own encode() writes them): each returns the value of the constraint nearest to the type on its inheritance path"""
+    cs = r.all_constraints(ty)
+    where = f"{name}:{ty}"
+    for f_, v in cs.items():
+        fn = m.fn(ty, f_) or m.fn(ty, "r#" + f_)
+        if fn is None:
+            continue
+        stats["accessors"] = stats.get("accessors", 0) + 1
+        body = fn.get("body") or []
+        stmts = body if isinstance(body, list) else body.get("stmts", [])
+        e = stmts[-1].get("e") if len(stmts) == 1 and stmts[-1].get("k") == "ExprStmt" else None
+        while e is not None and e.get("k") in ("Paren", "Cast"):
+            e = e["e"]
+        if e is None:
+            rep.add("C06|rust|accessor|shape", f"{ty}::{f_}() is not a single constant expression", where)
+            continue
+        if isinstance(v, int):
+            ok = e.get("k") == "Lit" and e.get("ty") == "int" and int(e["v"]) == v
+        else:
+            ok = e.get("k") == "Path" and camel(e["path"]["s"].split("::")[-1]) == camel(v)
+        if not ok:
+            rep.add("C06|rust|accessor|constraint-value", f"{ty}::{f_}() returns {synq.expr_skel(e)}; the constraint on its path "
+                    f"is {f_} = {v}", where)
+
+
 def run(rep, tier, seed):
     g = rc.gen(tier, seed)
     stats = {"parents": 0, "cells": 0, "constraints": 0, "conversions": 0}
@@ -424,6 +451,7 @@ def run(rep, tier, seed):
                 check_specialize(rep, name, m, r, ty, stats)
                 check_constraint_checks(rep, name, m, r, ty, stats)
                 check_into_parent(rep, name, m, r, ty, stats)
+                check_constant_accessors(rep, name, m, r, ty, stats)
             except Exception as e:      # reference model limits are not violations of pdl
                 import traceback
                 rep.notes.append(f"{name}:{ty}: {type(e).__name__}: {e}")
@@ -452,7 +480,7 @@ def run(rep, tier, seed):
         "programs": stats["parents"] + stats["conversions"],
         "disagreements_checked": stats["cells"] + stats["constraints"] + stats["conversions"],
         "specialize_parents": stats["parents"], "partition_cells": stats["cells"],
-        "constraints_checked": stats["constraints"], "conversions_checked": stats["conversions"], "samples": samples,
+        "constraints_checked": stats["constraints"], "conversions_checked": stats["conversions"], "accessors_checked": stats.get("accessors", 0), "samples": samples,
         "explanation": "specialize() evaluated on every cell of the partition induced by its literals and compared with the "
                        "reference specialisation; constraint checks of decode_partial; child->parent conversions",
     })
